@@ -118,6 +118,7 @@ pub fn c05(tier: &str) -> i32 {
         g("dml", 4, "DELETE and UPDATE ... WHERE atom for every atom, UPDATE with an expression and with several columns, multi-row INSERT, DELETE without WHERE: reported count and resulting table"),
     ];
     if thorough {
+        groups.insert(2, g("where-triples-wide", 8192, "the same 10 three-atom shapes over ALL ordered triples of every second atom (26 atoms, 175 760 queries)"));
         groups.insert(2, g("where-triples", 512, "10 three-atom shapes printed with minimal parentheses (a OR b AND c, (a OR b) AND c, NOT a AND b, NOT (a AND b), ...) over ALL ordered triples of a 12-atom subset"));
     } else {
         // the quick tier still runs the triple shapes, over the first 6 atoms of the subset
